@@ -327,13 +327,19 @@ fn check(c: &CliCase) -> CaseReport {
     let lib = crate::tool::run_full(cli_db(), q, true);
     if let Ok(lib) = lib {
         if !lib.descs.is_empty() {
-            let (want_default, _, _) = match expected_stdout(cli_db(), q, false) {
+            // every other query combines --describe with --exact
+            let with_exact = q.len() % 2 == 1;
+            let (want_default, _, _) = match expected_stdout(cli_db(), q, with_exact) {
                 Ok(x) => x,
                 Err(_) => return CaseReport::pass(q, nontrivial, all_classes),
             };
             let mut cmd = Command::new(&e.any);
             cmd.env("XDG_DATA_HOME", &e.xdg).env("TERM", "dumb").env("NO_COLOR", "1").env_remove("RUST_LOG").env_remove("RUST_BACKTRACE");
-            cmd.arg("--describe").arg("--").arg(q);
+            cmd.arg("--describe");
+            if with_exact {
+                cmd.arg("--exact");
+            }
+            cmd.arg("--").arg(q);
             watch_begin(q);
             let outp = cmd.output();
             watch_end();
@@ -369,7 +375,7 @@ fn check(c: &CliCase) -> CaseReport {
                 if !cur.is_empty() {
                     return bad("extra-output-after-descriptions");
                 }
-                all_classes.push("describe-mode");
+                all_classes.push(if with_exact { "describe+exact-mode" } else { "describe-mode" });
             }
         }
     }
